@@ -67,6 +67,18 @@ def call_entry(entry, text, language=None):
         return parser.parse_steps(text, language=language, filename="fuzz.feature")
     if entry == "tags":
         return parser.parse_tags(text)
+    if entry == "file":
+        # the file-level API the runner uses: line numbers are those of the file on disk
+        import os
+        import tempfile
+        base = os.environ.get("VERIF_TMP") or tempfile.gettempdir()
+        fd, path = tempfile.mkstemp(suffix=".feature", prefix="vf-c05-", dir=base)
+        try:
+            with os.fdopen(fd, "wb") as f:
+                f.write(text.encode("utf-8"))
+            return parser.parse_file(path)
+        finally:
+            os.unlink(path)
     raise ValueError(entry)
 
 
@@ -325,6 +337,12 @@ def check_catalogue(res, case):
         before = len(res.violations)
         probe(res, "feature", mtext, feat.get("lang"), expect_line=expect, fault=fault)
         count += 1
+        if feat.get("lang") in (None, "en") and idx % 3 == (case.get("spice") or 0) % 3:
+            # the same document as a file that starts with blank lines (legal): reported at its real line
+            lead = 1 + (case.get("spice") or 0) % 2
+            probe(res, "file", u"\n" * lead + mtext, None, expect_line=expect + lead, fault=fault)
+            count += 1
+            res.label("entry:file-with-leading-blank-lines")
         res.label("fault:" + fault)
         if len(res.violations) > before and only is None:
             for v in res.violations[before:]:
@@ -389,7 +407,7 @@ def required_labels(tier):
               "examples-outside-outline", "table-row-cell-count", "and-without-predecessor", "malformed-tag",
               "docstring-before-step", "table-before-step"]
     return ["soup", "structured-soup", "pool-single", "mutations", "raises-ParserError", "accepted-by-all",
-            "fault-text:braces/percent"] + \
+            "fault-text:braces/percent", "entry:file-with-leading-blank-lines"] + \
            ["fault:" + f for f in faults]
 
 
